@@ -5,6 +5,7 @@ import (
 	"context"
 	"encoding/hex"
 	"fmt"
+	"os"
 	"sync"
 	"sync/atomic"
 	"time"
@@ -40,6 +41,7 @@ type Harness struct {
 	reobsTx  map[string]int
 	cancel   context.CancelFunc
 	RunExits int32
+	W        *alephium.Watcher
 }
 
 // Start runs the real watcher (under the real supervisor) against sim.
@@ -53,6 +55,7 @@ func Start(sim *Sim, coreIdHex string, tb [32]byte, mainnet bool, pollMs uint) (
 	if err != nil {
 		return nil, err
 	}
+	h.W = w
 	ctx, cancel := context.WithCancel(context.Background())
 	h.cancel = cancel
 	go func() {
@@ -62,20 +65,9 @@ func Start(sim *Sim, coreIdHex string, tb [32]byte, mainnet bool, pollMs uint) (
 				return
 			case m := <-h.msgC:
 				v, n := sim.Snapshot()
-				// path: the re-observation handler is the only caller of /events/tx-id; if that
-				// endpoint was queried for this transaction just before, the message came from it
-				tx := hex.EncodeToString(m.TxHash[:])
-				recent := false
-				sim.WithLock(func() {
-					for i := len(sim.Log) - 1; i >= 0 && i >= len(sim.Log)-60; i-- {
-						if sim.Log[i].Kind == "tx-events" && sim.Log[i].Detail == tx {
-							recent = true
-						}
-					}
-				})
 				h.mu.Lock()
 				path := "poll"
-				if h.inReobs || recent {
+				if h.inReobs {
 					path = "reobserve"
 				}
 				h.Arrivals = append(h.Arrivals, Arrival{Msg: m, Version: v, LogN: n, Path: path, ReobsN: h.reobsTx[hex.EncodeToString(m.TxHash[:])]})
@@ -83,7 +75,11 @@ func Start(sim *Sim, coreIdHex string, tb [32]byte, mainnet bool, pollMs uint) (
 			}
 		}
 	}()
-	supervisor.New(ctx, zap.NewNop(), func(ctx context.Context) error {
+	logger := zap.NewNop()
+	if os.Getenv("VERIF_DEBUG") != "" {
+		logger, _ = zap.NewDevelopment()
+	}
+	supervisor.New(ctx, logger, func(ctx context.Context) error {
 		if err := supervisor.Run(ctx, "alphwatch", func(ctx context.Context) error {
 			err := w.Run(ctx)
 			atomic.AddInt32(&h.RunExits, 1)
@@ -117,14 +113,29 @@ func (h *Harness) WaitRounds(n int, wd time.Duration) bool {
 	if h.Sim.CountKind("count") < c0+n {
 		return false
 	}
-	if h.Sim.CountKind("height") == h0 {
-		return true // height poller idle (nothing pending)
-	}
+	// the height poller was active: n height rounds, or the watcher holds nothing any more (its
+	// height poller has stayed switched off over 3 further complete event-poll rounds; a fetched
+	// batch is handed over before the next count request, so nothing can be in flight then)
+	cAtLastOn := h.Sim.CountKind("count")
+	arr, lastArr := h.arrivalCount(), time.Now()
 	for time.Now().Before(deadline) {
-		if h.Sim.CountKind("height") >= h0+n {
+		hh, cc, aa := h.Sim.CountKind("height"), h.Sim.CountKind("count"), h.arrivalCount()
+		if aa != arr { // the watcher is still handing over confirmed messages
+			arr, cAtLastOn, lastArr = aa, cc, time.Now()
+			h0 = hh
+		}
+		// (the extra 150 ms without an arrival only ever lengthens the wait: the watcher switches its
+		// height poller off before it hands the confirmed batch over, message by message)
+		stable := time.Since(lastArr) > 150*time.Millisecond
+		if hh >= h0+n && stable {
 			return true
 		}
-		time.Sleep(300 * time.Microsecond)
+		if h.W.VerifBlockPollerEnabled() {
+			cAtLastOn = cc
+		} else if cc >= cAtLastOn+3 && stable {
+			return true
+		}
+		time.Sleep(200 * time.Microsecond)
 	}
 	return false
 }
@@ -154,8 +165,26 @@ func (h *Harness) Reobserve(txId string, wd time.Duration) bool {
 
 func (h *Harness) ArrivalsCopy() []Arrival {
 	h.mu.Lock()
+	out := append([]Arrival{}, h.Arrivals...)
+	h.mu.Unlock()
+	// path: the re-observation handler is the only caller of /events/tx-id; if that endpoint was
+	// queried for the message's transaction shortly before it arrived, the message came from it
+	log := h.Sim.LogCopy()
+	for i := range out {
+		tx := hex.EncodeToString(out[i].Msg.TxHash[:])
+		for j := out[i].LogN - 1; j >= 0 && j >= out[i].LogN-60 && j < len(log); j-- {
+			if log[j].Kind == "tx-events" && log[j].Detail == tx {
+				out[i].Path = "reobserve"
+			}
+		}
+	}
+	return out
+}
+
+func (h *Harness) arrivalCount() int {
+	h.mu.Lock()
 	defer h.mu.Unlock()
-	return append([]Arrival{}, h.Arrivals...)
+	return len(h.Arrivals)
 }
 
 // AllEvents lists every event entry of the ground truth.
